@@ -2030,6 +2030,14 @@ theorem stepChoice_mstar (h c : Nat) (flt : Fault) (w : World) : MStar w (stepCh
     · exact MStar.refl w
     · exact MStar.single (MStep.run h _ flt w)
 
+/-- the generated constants say: the purge arm's `wait` is the blocking one (checked against the table read from
+data_server.py; a `timeout=` or another `return_when` in the source makes this `decide` fail). -/
+theorem purgeWaitBlocks_true : purgeWaitBlocks = true := by decide
+
+theorem purgeWait_eq (h : Nat) (fuel : Nat) (sched : List Nat) (w : World) :
+    purgeWait h fuel sched w = waitAll h fuel sched w := by
+  simp [purgeWait, purgeWaitWith, purgeWaitBlocks_true]
+
 theorem waitAll_mstar (h : Nat) (fuel : Nat) (sched : List Nat) (w : World) : MStar w (waitAll h fuel sched w).1 := by
   induction fuel generalizing sched w with
   | zero => exact MStar.refl w
@@ -2342,7 +2350,7 @@ theorem handleAll_mstar (h : Nat) (fuel : Nat) (sched : List Nat) (w : World) : 
   | zero => exact MStar.refl w
   | succ n ih =>
     unfold handleAll
-    simp only
+    simp only [purgeWait_eq]
     split
     · exact MStar.refl w
     · rename_i hcr
